@@ -10,117 +10,459 @@ import (
 	"charonverif/internal/rt"
 )
 
+// GT — the duty gater (core.NewDutyGater) keeps the duty's slot in unsigned 64-bit arithmetic and admits a duty
+// only on the upper-bound comparison "slot-derived value <= bound". The rule is formulated on values, not on the
+// shape of the closure: the gater function is whatever NewDutyGater returns on success (a literal, a local bound
+// to a literal, a named function, a bound method); "slot-derived" is followed through locals, spill slots,
+// conversions, arithmetic and in-repo helpers / closures (arguments substituted for parameters); the verdict may be
+// the comparison itself, its negation, a short-circuit conjunction, a helper's result, or a constant returned on
+// the admitting edge of a branch on such a comparison.
+
+func init() {
+	gm := []Mutant{
+		// the comparison is computed but the verdict ignores it
+		{ID: "GATER-verdict-ignores-window", File: "core/gater.go", Expect: "GT",
+			Old: "\t\treturn dutyEpoch <= currentEpoch+uint64(o.allowedFutureEpochs)",
+			New: "\t\t_ = dutyEpoch <= currentEpoch+uint64(o.allowedFutureEpochs)\n\n\t\treturn true"},
+		// inverted window (admits only duties that are too far in the future)
+		{ID: "GATER-inverted-window", File: "core/gater.go", Expect: "GT",
+			Old: "\t\treturn dutyEpoch <= currentEpoch+uint64(o.allowedFutureEpochs)",
+			New: "\t\treturn dutyEpoch >= currentEpoch+uint64(o.allowedFutureEpochs)"},
+		// narrowing hidden in a helper closure: slot truncated to 32 bits
+		{ID: "GATER-helper-truncates-slot", File: "core/gater.go", Expect: "GT",
+			Old: "\t\tdutyEpoch := duty.Slot / slotsPerEpoch\n",
+			New: "\t\tdutyEpoch := func(slot uint64) uint64 { return uint64(uint32(slot)) / slotsPerEpoch }(duty.Slot)\n"},
+		// early admit on a branch that is not the window test
+		{ID: "GATER-early-admit", File: "core/gater.go", Expect: "GT",
+			Old: "\t\tdutyEpoch := duty.Slot / slotsPerEpoch\n",
+			New: "\t\tdutyEpoch := duty.Slot / slotsPerEpoch\n\t\tif duty.Type == DutyExit {\n\t\t\treturn true\n\t\t}\n"},
+	}
+	Extend("C05", "", func(*rt.Ctx) {}, gm...)
+}
+
 func gaterRule(c *rt.Ctx) {
 	c.Rule("GT", 2, func() {
 		mk := c.Fn("core.NewDutyGater")
-		var lit *ssa.Function
-		for _, f := range mk.AnonFuncs {
-			if len(f.Params) == 1 && an.TypeName(f.Params[0].Type()) == "core.Duty" {
-				lit = f
-			}
-		}
-		if lit == nil {
-			c.Bail("NewDutyGater: gater literal not found")
-		}
-		duty := ssa.Value(lit.Params[0])
-		bad := ""
-		var badPos token.Pos
-		for _, in := range an.Instrs(lit, false) {
-			cv, ok := in.(*ssa.Convert)
-			if !ok {
+		var gaters []*ssa.Function
+		unknown := false
+		for _, rc := range an.SuccessCases(mk) {
+			if len(rc.Vals) == 0 {
 				continue
 			}
-			from, ok1 := cv.X.Type().Underlying().(*types.Basic)
-			to, ok2 := cv.Type().Underlying().(*types.Basic)
-			if !ok1 || !ok2 || !usesSlot(cv.X, duty, 0) {
+			if an.IsNilConst(an.Resolve(rc.Vals[0])) {
 				continue
 			}
-			if from.Info()&types.IsUnsigned != 0 && (to.Info()&types.IsUnsigned == 0 || to.Kind() == types.Uint32 || to.Kind() == types.Uint16 || to.Kind() == types.Uint8) {
-				bad, badPos = "the duty slot is converted from "+from.Name()+" to "+to.Name(), cv.Pos()
+			fs := gtFuncValues(rc.Vals[0], 0)
+			if len(fs) == 0 {
+				unknown = true
 			}
-		}
-		pos := lit.Pos()
-		if bad != "" {
-			pos = badPos
-		}
-		c.Check("NewDutyGater slot arithmetic stays unsigned 64-bit", pos, bad == "", bad+": a slot >= 2^63 wraps and passes the future-epoch window")
-		// every return that can yield true is the upper-bound comparison of a slot-derived value itself, or lies on
-		// the "slot-derived value <= bound" edge of a branch on such a comparison (any spelling)
-		good := true
-		nTrue := 0
-		for _, r := range an.Returns(lit) {
-			v := an.Unwrap(returnValues(r)[0])
-			if k, ok := v.(*ssa.Const); ok && k.Value != nil && k.Value.ExactString() == "false" {
-				continue
-			}
-			nTrue++
-			okRet := false
-			if bin, ok := v.(*ssa.BinOp); ok && (bin.Op == token.LEQ || bin.Op == token.GEQ || bin.Op == token.LSS || bin.Op == token.GTR) {
-				x, y := bin.X, bin.Y
-				if bin.Op == token.GEQ || bin.Op == token.GTR {
-					x, y = y, x
-				}
-				if usesSlot(x, duty, 0) && !usesSlot(y, duty, 0) {
-					okRet = true
-				}
-			}
-			if !okRet {
-				for _, in := range an.Instrs(lit, false) {
-					val, isVal := in.(ssa.Value)
-					if !isVal || !usesSlot(val, duty, 0) {
-						continue
-					}
-					for _, cd := range an.CondsOn(lit, val) {
-						if cd.Other == nil || usesSlot(cd.Other, duty, 0) {
-							continue
-						}
-						var pass *ssa.BasicBlock
-						switch cd.Op {
-						case token.LEQ, token.LSS:
-							pass = cd.Succ(true)
-						case token.GTR, token.GEQ:
-							pass = cd.Succ(false)
-						default:
-							continue
-						}
-						fail := cd.If.Block().Succs[0]
-						if fail == pass {
-							fail = cd.If.Block().Succs[1]
-						}
-						if (pass == r.Block() || pass.Dominates(r.Block())) && !an.CanReach(fail, r.Block(), nil) {
-							okRet = true
-						}
+			for _, f := range fs {
+				dup := false
+				for _, g := range gaters {
+					if g == f {
+						dup = true
 					}
 				}
-			}
-			if !okRet {
-				good = false
+				if !dup {
+					gaters = append(gaters, f)
+				}
 			}
 		}
-		if nTrue == 0 {
-			good = false
+		if len(gaters) == 0 || unknown {
+			c.Bail("NewDutyGater: cannot resolve the function value it returns")
 		}
-		c.Check("NewDutyGater admits only dutyEpoch <= current + allowed", lit.Pos(), good, "the gater's verdict is not the upper-bound comparison of the duty's epoch")
+		for _, g := range gaters {
+			gaterCheck(c, g)
+		}
 	})
 }
 
-func usesSlot(v, duty ssa.Value, d int) bool {
+// gtFuncValues resolves a function-typed value, also through in-repo helpers that return it.
+func gtFuncValues(v ssa.Value, d int) []*ssa.Function {
+	if d > 4 {
+		return nil
+	}
+	if fs := an.FuncValues(v); len(fs) > 0 {
+		return fs
+	}
+	r := an.Resolve(v)
+	var call *ssa.Call
+	idx := 0
+	switch x := r.(type) {
+	case *ssa.Call:
+		call = x
+	case *ssa.Extract:
+		call, _ = x.Tuple.(*ssa.Call)
+		idx = x.Index
+	}
+	if call == nil {
+		return nil
+	}
+	body := an.StaticBody(&call.Call)
+	if body == nil {
+		return nil
+	}
+	var out []*ssa.Function
+	for _, rc := range an.SuccessCases(body) {
+		if idx >= len(rc.Vals) {
+			return nil
+		}
+		fs := gtFuncValues(rc.Vals[idx], d+1)
+		if len(fs) == 0 {
+			return nil
+		}
+		out = append(out, fs...)
+	}
+	return out
+}
+
+// gtEnv says which parameters / free variables of the function under analysis carry a slot-derived value.
+type gtEnv map[ssa.Value]bool
+
+type gtWalker struct {
+	dutyParams map[ssa.Value]bool
+	bad        string
+	badPos     token.Pos
+	visited    map[*ssa.Function]bool
+	stack      int
+}
+
+func gaterCheck(c *rt.Ctx, g *ssa.Function) {
+	w := &gtWalker{dutyParams: map[ssa.Value]bool{}, visited: map[*ssa.Function]bool{}}
+	for _, p := range g.Params {
+		if an.TypeName(p.Type()) == "core.Duty" {
+			w.dutyParams[p] = true
+		}
+	}
+	if len(w.dutyParams) == 0 {
+		c.Bail("gater %s has no core.Duty parameter", an.FuncName(g))
+	}
+	name := "NewDutyGater"
+	// (1) no narrowing / signed conversion of a slot-derived value, in the gater or in any helper it feeds the slot to
+	w.convs(g, gtEnv{})
+	pos := g.Pos()
+	if w.bad != "" {
+		pos = w.badPos
+	}
+	c.Check(name+" slot arithmetic stays unsigned 64-bit", pos, w.bad == "", w.bad+": a slot >= 2^63 wraps and passes the future-epoch window")
+
+	// (2) every return that can yield true is the upper-bound comparison (or lies on its admitting edge)
+	good, unsure := true, ""
+	why := "the gater's verdict is not the upper-bound comparison of the duty's epoch"
+	nTrue := 0
+	for _, rc := range an.ReturnCases(g) {
+		if len(rc.Vals) != 1 {
+			unsure = "gater does not return a single boolean"
+			continue
+		}
+		v := an.Resolve(rc.Vals[0])
+		if k, ok := v.(*ssa.Const); ok && k.Value != nil && k.Value.ExactString() == "false" {
+			continue
+		}
+		nTrue++
+		if w.admitEdge(g, rc.At, rc.Into, gtEnv{}) {
+			continue
+		}
+		switch w.polarity(v, gtEnv{}, 0) {
+		case +1:
+			continue
+		case -1:
+			good = false
+			why = "the gater admits a duty on the wrong side of the comparison (slot-derived value above the bound)"
+			continue
+		}
+		if k, ok := v.(*ssa.Const); ok && k.Value != nil {
+			good = false
+			why = "the gater returns true on a path that is not the admitting edge of the upper-bound comparison of the duty's epoch"
+			continue
+		}
+		if bin, ok := v.(*ssa.BinOp); ok && isCompare(bin.Op) {
+			good = false
+			continue
+		}
+		unsure = "a returned verdict has a shape the rule does not follow"
+	}
+	if nTrue == 0 {
+		good = false
+		why = "the gater never admits a duty"
+	}
+	k := name + " admits only dutyEpoch <= current + allowed"
+	switch {
+	case !good:
+		c.Bad(k, g.Pos(), why)
+	case unsure != "":
+		c.Unsure(k, g.Pos(), unsure)
+	default:
+		c.Good(k, g.Pos(), "every admitting return is (guarded by) slot-derived <= bound")
+	}
+}
+
+func isCompare(op token.Token) bool {
+	switch op {
+	case token.LSS, token.LEQ, token.GTR, token.GEQ, token.EQL, token.NEQ:
+		return true
+	}
+	return false
+}
+
+// admitEdge: the return case (block at, or edge at→into) can only be reached through the admitting edge of a
+// branch whose condition is an upper-bound comparison of a slot-derived value.
+func (w *gtWalker) admitEdge(g *ssa.Function, at, into *ssa.BasicBlock, env gtEnv) bool {
+	for _, b := range g.Blocks {
+		if len(b.Instrs) == 0 {
+			continue
+		}
+		iff, ok := b.Instrs[len(b.Instrs)-1].(*ssa.If)
+		if !ok {
+			continue
+		}
+		pol := w.polarity(iff.Cond, env, 0)
+		if pol == 0 {
+			continue
+		}
+		pass := b.Succs[0]
+		if pol < 0 {
+			pass = b.Succs[1]
+		}
+		if an.EdgeConfines(b, pass, at) {
+			return true
+		}
+		if into != nil && b == at && pass == into && b.Succs[0] != b.Succs[1] {
+			return true
+		}
+	}
+	return false
+}
+
+// polarity classifies a boolean value: +1 if it is true exactly when "slot-derived <= / < bound" holds, -1 if it is
+// true exactly when the slot-derived value is above the bound, 0 otherwise.
+func (w *gtWalker) polarity(v ssa.Value, env gtEnv, d int) int {
 	if d > 8 {
-		return false
+		return 0
 	}
 	v = an.Resolve(v)
 	switch x := v.(type) {
-	case *ssa.Field:
-		return an.Resolve(x.X) == duty && fieldNameOf(x.X.Type(), x.Field) == "Slot"
 	case *ssa.UnOp:
-		if fa, ok := x.X.(*ssa.FieldAddr); ok && x.Op == token.MUL {
-			return fieldNameOf(fa.X.Type(), fa.Field) == "Slot" && rootedAt(fa.X, duty)
+		if x.Op == token.NOT {
+			return -w.polarity(x.X, env, d+1)
 		}
-		return usesSlot(x.X, duty, d+1)
 	case *ssa.BinOp:
-		return usesSlot(x.X, duty, d+1) || usesSlot(x.Y, duty, d+1)
-	case *ssa.Convert:
-		return usesSlot(x.X, duty, d+1)
+		var lo, hi ssa.Value
+		switch x.Op {
+		case token.LEQ, token.LSS:
+			lo, hi = x.X, x.Y
+		case token.GEQ, token.GTR:
+			lo, hi = x.Y, x.X
+		default:
+			return 0
+		}
+		ls, hs := w.usesSlot(lo, env, 0), w.usesSlot(hi, env, 0)
+		switch {
+		case ls && !hs:
+			return +1
+		case hs && !ls:
+			return -1
+		}
+	case *ssa.Call:
+		body := an.StaticBody(&x.Call)
+		if body == nil || w.stack > 4 {
+			return 0
+		}
+		env2 := w.bind(x, body, env)
+		w.stack++
+		defer func() { w.stack-- }()
+		pol, first := 0, true
+		for _, rc := range an.ReturnCases(body) {
+			if len(rc.Vals) != 1 {
+				return 0
+			}
+			rv := an.Resolve(rc.Vals[0])
+			p := w.polarity(rv, env2, d+1)
+			if p == 0 {
+				if k, ok := rv.(*ssa.Const); ok && k.Value != nil {
+					isTrue := k.Value.ExactString() == "true"
+					switch {
+					case w.admitEdge(body, rc.At, rc.Into, env2):
+						p = +1
+					case w.rejectEdge(body, rc.At, rc.Into, env2):
+						p = -1
+					}
+					if !isTrue {
+						p = -p
+					}
+				}
+			}
+			if p == 0 || (!first && p != pol) {
+				return 0
+			}
+			pol, first = p, false
+		}
+		return pol
+	}
+	return 0
+}
+
+// rejectEdge is admitEdge for the other successor.
+func (w *gtWalker) rejectEdge(g *ssa.Function, at, into *ssa.BasicBlock, env gtEnv) bool {
+	for _, b := range g.Blocks {
+		if len(b.Instrs) == 0 {
+			continue
+		}
+		iff, ok := b.Instrs[len(b.Instrs)-1].(*ssa.If)
+		if !ok {
+			continue
+		}
+		pol := w.polarity(iff.Cond, env, 0)
+		if pol == 0 {
+			continue
+		}
+		rej := b.Succs[1]
+		if pol < 0 {
+			rej = b.Succs[0]
+		}
+		if an.EdgeConfines(b, rej, at) {
+			return true
+		}
+		if into != nil && b == at && rej == into && b.Succs[0] != b.Succs[1] {
+			return true
+		}
 	}
 	return false
+}
+
+// bind maps the parameters (and captured variables) of a directly called in-repo function to "slot-derived or not".
+func (w *gtWalker) bind(call ssa.CallInstruction, body *ssa.Function, env gtEnv) gtEnv {
+	env2 := gtEnv{}
+	for k, v := range env {
+		if _, ok := k.(*ssa.FreeVar); ok {
+			env2[k] = v
+		}
+	}
+	args := call.Common().Args
+	for i, p := range body.Params {
+		if i < len(args) && w.usesSlot(args[i], env, 0) {
+			env2[p] = true
+		}
+	}
+	return env2
+}
+
+// usesSlot: v is computed from the Slot field of a core.Duty parameter of the gater.
+func (w *gtWalker) usesSlot(v ssa.Value, env gtEnv, d int) bool {
+	if d > 12 {
+		return false
+	}
+	if env[v] {
+		return true
+	}
+	v = an.Resolve(v)
+	if env[v] {
+		return true
+	}
+	switch x := v.(type) {
+	case *ssa.Field:
+		if fieldNameOf(x.X.Type(), x.Field) == "Slot" && an.TypeName(x.X.Type()) == "core.Duty" {
+			return true
+		}
+		return false
+	case *ssa.UnOp:
+		if fa, ok := x.X.(*ssa.FieldAddr); ok && x.Op == token.MUL {
+			return fieldNameOf(fa.X.Type(), fa.Field) == "Slot" && an.TypeName(fa.X.Type()) == "core.Duty"
+		}
+		if al, ok := x.X.(*ssa.Alloc); ok && x.Op == token.MUL {
+			for _, st := range an.StoresTo(al) {
+				if w.usesSlot(st.Val, env, d+1) {
+					return true
+				}
+			}
+			return false
+		}
+		if fv, ok := x.X.(*ssa.FreeVar); ok && x.Op == token.MUL {
+			return w.usesSlot(fv, env, d+1)
+		}
+		return w.usesSlot(x.X, env, d+1)
+	case *ssa.FreeVar:
+		b := an.ClosureBinding(x)
+		if al, ok := b.(*ssa.Alloc); ok {
+			for _, st := range an.StoresTo(al) {
+				if w.usesSlot(st.Val, env, d+1) {
+					return true
+				}
+			}
+			return false
+		}
+		if b != nil {
+			return w.usesSlot(b, env, d+1)
+		}
+	case *ssa.BinOp:
+		return w.usesSlot(x.X, env, d+1) || w.usesSlot(x.Y, env, d+1)
+	case *ssa.Convert:
+		return w.usesSlot(x.X, env, d+1)
+	case *ssa.Phi:
+		if d > 6 {
+			return false
+		}
+		for _, e := range x.Edges {
+			if e != ssa.Value(x) && w.usesSlot(e, env, d+3) {
+				return true
+			}
+		}
+	case *ssa.Extract:
+		return w.usesSlot(x.Tuple, env, d+1)
+	case *ssa.Call:
+		// any call fed a slot-derived argument yields a slot-derived result (helpers such as epochOf(slot, perEpoch))
+		for _, a := range x.Call.Args {
+			if w.usesSlot(a, env, d+1) {
+				return true
+			}
+		}
+	}
+	return false
+}
+
+// convs records a narrowing / signed conversion of a slot-derived value in fn or in the helpers it passes one to.
+func (w *gtWalker) convs(fn *ssa.Function, env gtEnv) {
+	if w.visited[fn] && len(env) == 0 {
+		return
+	}
+	w.visited[fn] = true
+	if w.stack > 5 {
+		return
+	}
+	for _, in := range an.Instrs(fn, false) {
+		switch x := in.(type) {
+		case *ssa.Convert:
+			from, ok1 := x.X.Type().Underlying().(*types.Basic)
+			to, ok2 := x.Type().Underlying().(*types.Basic)
+			if !ok1 || !ok2 || !w.usesSlot(x.X, env, 0) {
+				continue
+			}
+			if from.Info()&types.IsUnsigned != 0 && (to.Info()&types.IsUnsigned == 0 || to.Kind() == types.Uint32 || to.Kind() == types.Uint16 || to.Kind() == types.Uint8) {
+				if w.bad == "" {
+					w.bad, w.badPos = "the duty slot is converted from "+from.Name()+" to "+to.Name(), x.Pos()
+					if !w.badPos.IsValid() {
+						w.badPos = fn.Pos()
+					}
+				}
+			}
+		case ssa.CallInstruction:
+			body := an.StaticBody(x.Common())
+			if body == nil {
+				continue
+			}
+			env2 := w.bind(x, body, env)
+			tainted := false
+			for k := range env2 {
+				if _, ok := k.(*ssa.Parameter); ok {
+					tainted = true
+				}
+			}
+			if !tainted {
+				continue
+			}
+			w.stack++
+			w.convs(body, env2)
+			w.stack--
+		}
+	}
 }
